@@ -153,15 +153,15 @@ func init() {
 	register(&Plan{
 		Prop:  "C11",
 		Level: "exploration",
-		Rule: "exh: ALL sequences up to the length bound over (call x target logger): quick = 18 calls x 3 loggers, length <= 2 (2971 sequences); thorough = length <= 3 over 18 calls (160435) ; calls = SetJSONMode/SetColorMode with 0, 1 or 2 boolean arguments, WithJSONMode/WithColorMode variants, New(..) with the mode options; " +
+		Rule: "exh: ALL sequences up to the length bound over (call x target logger): quick = 23 calls x 3 loggers, length <= 2 (4831 sequences); thorough = length <= 3 over 23 calls (333340) ; calls = SetJSONMode/SetColorMode with 0, 1 or 2 boolean arguments, WithJSONMode/WithColorMode variants, New(..) on a logger with the mode options (with a name, with an empty name, without a name, behind another option, two mode options in a row); " +
 			"targets = root, child, grandchild of a fresh tree. rand: random sequences of 4-15 calls. After EVERY call, for EVERY logger of the tree (incl. the children created on the way): JSONMode()/ColorMode() == the modelled three-state machine and a probe record classifies ({ / ESC / time=) as that state. non-trivial = every completed sequence; distinct = by sequence",
 		Assumptions: []string{"a call without arguments means true, with several the last wins (as documented)"},
 		Floors:      map[string]int64{"probes_classified": 5000},
 		Exhaustive:  func(string) bool { return true },
 		Jobs: func(tier string, seed int64) []Job {
-			// 54 symbols: lengths <=2 -> 1+54+2916 = 2971 ; <=3 -> 160435
-			n := pick(tier, 2971, 160435)
-			js := chunk("exh", "prod", n, pick(tier, 250, 10100), Job{Timeout: 30 * time.Minute})
+			// 69 symbols: lengths <=2 -> 1+69+4761 = 4831 ; <=3 -> 333340
+			n := pick(tier, 4831, 333340)
+			js := chunk("exh", "prod", n, pick(tier, 405, 20900), Job{Timeout: 30 * time.Minute})
 			js = append(js, chunk("rand", "prod", pick(tier, 12000, 50000), pick(tier, 1000, 3200), Job{Timeout: 30 * time.Minute})...)
 			return js
 		},
@@ -169,7 +169,7 @@ func init() {
 	register(&Plan{
 		Prop:  "C12",
 		Level: "exploration",
-		Rule: "matrix: the complete product {7 entry-point families that can carry the severity: verb, Context verb, LogAttrs, Logit, Log(log/slog level), package verb, package Context verb} x {Panic, Fatal} x {no-interrupt flag} x {interrupt-always flag} x {production, under-go-test process} x {admitted, denied by an Off logger, denied by the level threshold (a Panic-level logger and a Fatal record)} x {json, logfmt, color} x {root, child | default} = 1440 cells (package functions only exist for the default logger), plus 192 cells with a 1100-item argument list and 240 cells in a production process that carries an argument starting with -bench = 1872 cells; " +
+		Rule: "matrix: the complete product {7 entry-point families that can carry the severity: verb, Context verb, LogAttrs, Logit, Log(log/slog level), package verb, package Context verb} x {Panic, Fatal} x {no-interrupt flag} x {interrupt-always flag} x {production, under-go-test process} x {admitted, denied by an Off logger, denied by the level threshold (a Panic-level logger and a Fatal record)} x {json, logfmt, color} x {root, child | default} = 1440 cells (package functions only exist for the default logger), plus 192 cells with a 1100-item argument list, 240 cells in a production process that carries an argument starting with -bench and 384 cells in which the two flags got their values through another idiom (SetFlags; a SaveFlagsAndMod window that is still open; the opposite values inside a SaveFlagsAndMod window whose restore closure has run) = 2256 cells; " +
 			"each cell is ONE child process built from the tree performing ONE call with an unbuffered file as destination; the parent observes exit status, the recovered panic value and the file. thorough = all cells, quick = every 8th cell of the base matrix starting at VERIF_SEED mod 8 (all 8 quick seeds together cover it) and every 2nd of the extra cells. " +
 			"negative: 8 probe processes (mode x flags) issue every other severity through every entry point (~350 calls each) and must survive. non-trivial = every judged cell; distinct = by cell",
 		Assumptions: []string{"a record present in the unbuffered file was written before the process terminated", "a 60 s watchdog per probe process; a timeout is inconclusive"},
@@ -178,13 +178,13 @@ func init() {
 		Jobs: func(tier string, seed int64) []Job {
 			var js []Job
 			if tier == "thorough" {
-				js = chunk("matrix", "prod", 1872, 117, Job{Timeout: 30 * time.Minute})
+				js = chunk("matrix", "prod", 2256, 141, Job{Timeout: 30 * time.Minute})
 			} else {
 				off := int(((seed % 8) + 8) % 8)
 				for i := off; i < 1440; i += 8 {
 					js = append(js, Job{Sub: "matrix", Mode: "prod", From: i, To: i + 1, Timeout: 10 * time.Minute})
 				}
-				for i := 1440 + off%2; i < 1872; i += 2 { // the extra cells (huge argument lists, -bench argument) are sampled more densely
+				for i := 1440 + off%2; i < 2256; i += 2 { // the extra cells (huge argument lists, -bench argument) are sampled more densely
 					js = append(js, Job{Sub: "matrix", Mode: "prod", From: i, To: i + 1, Timeout: 10 * time.Minute})
 				}
 				// group them: one job per 16 cells
